@@ -676,6 +676,11 @@ func (a *ArmLoop) Must(op int, kinds ...string) bool {
 			if !outs[i].has(op) {
 				continue
 			}
+			// the edge on which the location already holds the value: `if data[i] != v { data[i] = v }`
+			// — on the equal edge the store would change nothing, the effect is established
+			if a.establishedOn(b, i, kinds) {
+				continue
+			}
 			if s == a.Head || !a.InBody[s] {
 				return false // completed the iteration (or left) without the effect
 			}
@@ -722,4 +727,75 @@ func (a *ArmLoop) EffectKindsUnder(op int) []string {
 	}
 	sort.Strings(out)
 	return out
+}
+
+// establishedOn: edge i out of b is the equal edge of a comparison `load(L) == V` (or the false edge
+// of !=) where some effect of the given kinds in this loop stores V to L (a slice element or a map
+// entry): taking that edge, L already holds what the effect would store. Values are compared modulo
+// copies (strings.Clone, string([]byte)) and repeated reads of the reader's current value.
+func (a *ArmLoop) establishedOn(b *ssa.BasicBlock, i int, kinds []string) bool {
+	if len(b.Instrs) == 0 || len(b.Succs) != 2 {
+		return false
+	}
+	iff, ok := b.Instrs[len(b.Instrs)-1].(*ssa.If)
+	if !ok {
+		return false
+	}
+	bo, ok := iff.Cond.(*ssa.BinOp)
+	if !ok || (bo.Op != token.EQL && bo.Op != token.NEQ) {
+		return false
+	}
+	if (bo.Op == token.EQL) != (i == 0) {
+		return false // the unequal edge
+	}
+	sameVal := func(x, y ssa.Value) bool {
+		x, y = unwrapCopy(x), unwrapCopy(y)
+		if sameExpr(x, y) {
+			return true
+		}
+		// two reads of the reader's current value (r.String(), r.Bytes(), …) within one iteration
+		cx, okx := strip(x).(*ssa.Call)
+		cy, oky := strip(y).(*ssa.Call)
+		if okx && oky && len(cx.Call.Args) == 1 && len(cy.Call.Args) == 1 {
+			sx, sy := cx.Call.StaticCallee(), cy.Call.StaticCallee()
+			if sx != nil && sx == sy && methodOn(&cx.Call, CommitPath, "Reader", sx.Name()) && sameExpr(cx.Call.Args[0], cy.Call.Args[0]) {
+				return true
+			}
+		}
+		return false
+	}
+	for _, es := range a.Effects {
+		for _, e := range es {
+			if e.Inlined {
+				continue
+			}
+			match := false
+			for _, k := range kinds {
+				if e.Kind == k {
+					match = true
+				}
+			}
+			if !match {
+				continue
+			}
+			for _, pair := range [][2]ssa.Value{{bo.X, bo.Y}, {bo.Y, bo.X}} {
+				loc, val := pair[0], pair[1]
+				switch x := e.Ins.(type) {
+				case *ssa.Store:
+					if ld, isLd := strip(loc).(*ssa.UnOp); isLd && ld.Op == token.MUL && sameExpr(ld.X, x.Addr) && sameVal(val, x.Val) {
+						return true
+					}
+				case *ssa.MapUpdate:
+					lk := strip(loc)
+					if ex, isEx := lk.(*ssa.Extract); isEx && ex.Index == 0 {
+						lk = ex.Tuple
+					}
+					if l, isL := lk.(*ssa.Lookup); isL && sameExpr(l.X, x.Map) && sameExpr(l.Index, x.Key) && sameVal(val, x.Value) {
+						return true
+					}
+				}
+			}
+		}
+	}
+	return false
 }
